@@ -78,6 +78,9 @@ class Run:
         except CaseTimeout:
             self.inconc('case watchdog')
         except Exception as e:
+            if type(e).__name__ == 'RunawayOutput':
+                self.inconc('stream above the harness cap')
+                return
             tb = traceback.format_exc()
             self.violation(f'unexpected {type(e).__name__} escaped while running the case: {e!s:.200}', case, observed=tb[-2500:])
 
